@@ -44,7 +44,7 @@ ASSUMPTIONS = [
 REQUIRED = {"all": ["runs", "completed_runs", "steps", "accepted_steps", "rejected_in_range_steps", "out_of_range_proposals",
                     "flat_checks", "flat_checks_flat", "flat_checks_not_flat", "files_checked", "seqlog_lines_checked",
                     "partial_range_runs", "hostile_tapes", "start_outside_range_runs", "flat_boundary_exact_hits",
-                    "second_runs_on_same_machine", "g_beyond_709_steps", "streaks_of_200_failed_checks"]}
+                    "second_runs_on_same_machine", "g_beyond_709_steps", "streaks_of_200_failed_checks", "runs_beyond_30_iterations"]}
 NRUNS = {"quick": 160, "thorough": 1200}
 STEP_BUDGET = {"quick": 3000, "thorough": 30000}
 WATCHDOG = {"quick": 1200, "thorough": 6 * 3600}
@@ -112,6 +112,12 @@ def cases(tier, seed):
             yield {"s": seq, "M": 2, "a": 0, "b": 2, "flatchk": 2600, "flatcrit": rng.choice([0.0, 0.2]), "conv": "e0.6",
                    "frozen": [], "hostile": False, "o": rng.randrange(1 << 30), "twice": False}
             continue
+        if i % 16 == 3:
+            # dozens of refinement iterations: every check succeeds (criterion 0), so the run is short in steps
+            yield {"s": seq, "M": rng.choice([2, 4, 5]), "a": 0, "b": 0, "flatchk": rng.choice([1, 3, 10]), "flatcrit": 0.0,
+                   "conv": rng.choice(["default", "1+1e-10", "1+1e-12"]), "frozen": [], "hostile": False, "o": rng.randrange(1 << 30),
+                   "twice": False, "fullrange": True}
+            continue
         if i % 16 == 11:
             # strict criterion checked every step or two: hundreds of consecutive failing checks within one iteration
             yield {"s": seq, "M": rng.choice([4, 5]), "a": 0, "b": 0, "flatchk": rng.choice([1, 2]), "flatcrit": 0.9, "conv": "e0.6",
@@ -124,7 +130,8 @@ def cases(tier, seed):
                "frozen": [] if i % 5 else [0, 1], "hostile": i % 4 == 1, "o": rng.randrange(1 << 30)}
 
 
-CONV = {"e0.6": math.exp(0.6), "e0.3": math.exp(0.3), "1.2": 1.2, "e0.1": math.exp(0.1)}
+CONV = {"e0.6": math.exp(0.6), "e0.3": math.exp(0.3), "1.2": 1.2, "e0.1": math.exp(0.1), "default": math.exp(0.000001),
+        "1+1e-10": 1.0 + 1e-10, "1+1e-12": 1.0 + 1e-12}
 
 
 def kappa_ref(seq):
@@ -370,6 +377,8 @@ class Monitor:
             self.glog_expect.append(list(self.g))
             if self.f <= self.conv:
                 self.finished_f = True
+            if self.niter == 31:
+                self.rep.cnt("runs_beyond_30_iterations")
         else:
             self.rep.cnt("flat_checks_not_flat")
             self.fail_streak = getattr(self, "fail_streak", 0) + 1
